@@ -394,7 +394,9 @@ func (vc *VC) havocTarget(env *SpecEnv, st *State, m *SExpr, con *Contract) {
 		comp := vc.arrComp(tgt.elem)
 		na := vc.declFresh("modarr", sortArray(vc.idxSort(), vc.sortOf(tgt.elem)))
 		h := vc.heapGet(st.heap, comp)
+		vc.pendingRef = tgt.ref.S
 		vc.heapSet(st, comp, vc.define(comp, tStore(h, tgt.ref, na)))
+		vc.pendingRef = ""
 	case "comp":
 		vc.heapSet(st, tgt.comp, vc.declFresh(tgt.comp+"!mod", vc.compSort[tgt.comp]))
 	}
@@ -447,10 +449,10 @@ func (vc *VC) modTarget(env *SpecEnv, m *SExpr) modTgt {
 			return modTgt{kind: "arr", ref: mk("(sl-ref "+v.T.S+")", sortRef), elem: sl.Elem()}
 		}
 		if m.Name == "heap" && len(m.Args) == 1 {
-			tn := m.Args[0].String()
-			for comp := range vc.compSort {
-				if comp == "P:"+tn || comp == "A:"+tn || comp == "M:"+tn || comp == "G:"+tn || comp == "GH:"+tn {
-					return modTgt{kind: "comp", comp: comp}
+			tn := strings.Trim(m.Args[0].String(), "\"")
+			for _, pfx := range []string{"M:", "GH:", "G:", "A:", "P:"} {
+				if _, ok := vc.compSort[pfx+tn]; ok {
+					return modTgt{kind: "comp", comp: pfx + tn}
 				}
 			}
 			// not yet registered: register by name lookup
